@@ -138,7 +138,8 @@ def run(ctx) -> None:
                        "(R03.12, shared)")
     c03.r03_12(Relabel(ctx, "R01.20"), modules=("builtins", "itertools", "heapq", "_core"))
     ctx.floor("tool_cells_decided", 340)
-    ctx.floor("merge_cells", 6)
+    if not ctx.__dict__.get("_r01_1_not_applicable"):
+        ctx.floor("merge_cells", 6)
     ctx.floor("yield_sites", 18)
     ctx.floor("source_loops", 4)
 
@@ -441,6 +442,7 @@ def r01_1(ctx) -> None:
         # the order algebra reads one construction site; however the heap is built, the merge table R01.15 decides the order
         ctx.note(f"R01.1: the heap entries of merge are not built by one (holder, position) display ({[norm(e) for e in entries]}); "
                  "the order of ties is decided by the merge table R01.15 alone")
+        ctx.__dict__["_r01_1_not_applicable"] = True
         return
     flag = [p.arg for p in u.params() if p.annotation is not None and norm(p.annotation) == "bool"]
     idx_names = [x.id for x in ast.walk(entries[0].elts[1]) if isinstance(x, ast.Name) and x.id not in flag]
@@ -465,6 +467,7 @@ def r01_1(ctx) -> None:
             # the order algebra cannot read how positions are numbered here; the merge table R01.15 decides the order of ties
             ctx.note(f"R01.1: the position `{norm(entries[0].elts[1])}` of a heap entry of merge could not be evaluated; "
                      "the order of ties is decided by the merge table R01.15 alone")
+            ctx.__dict__["_r01_1_not_applicable"] = True
             return
         for outcome in ("LT", "EQ", "GT"):
             ctx.count("merge_cells")
@@ -547,8 +550,8 @@ def r01_5(ctx) -> None:
 # --------------------------------------------------------------------------- R01.2
 def r01_2(ctx) -> None:
     seen: Dict = {}
-    for short in _present(ctx, PASS_THROUGH + TRANSFORMING) + ["builtins.iter", "heapq._KeyIter.from_iters",
-                                               "itertools.Tee.__init__", "itertools.chain.__init__"]:
+    for short in _present(ctx, PASS_THROUGH + TRANSFORMING + ["heapq._KeyIter.from_iters"]) + [
+            "builtins.iter", "itertools.Tee.__init__", "itertools.chain.__init__"]:
         u = ctx.inlined(ctx.unit(short))  # an error may be raised from a private helper of the tool
         for r in own_nodes(u.node):
             if isinstance(r, ast.Raise):
@@ -664,7 +667,7 @@ def _lockstep_order(ctx) -> None:
 
 def r01_4(ctx) -> None:
     _lockstep_order(ctx)
-    for short in MULTI_SOURCE:
+    for short in _present(ctx, MULTI_SOURCE):
         u = ctx.unit(short)
         cfg = cfg_of(u)
         for n in cfg.nodes:
